@@ -279,7 +279,7 @@ func SolveBatch(fc *FnCtx, dir string, perCheckMs int) {
 	// obligations are generated in order of NFacts
 	file := filepath.Join(dir, "batch_"+sanitize(fc.key)+".smt2")
 	txt := batchFile(fc, obs)
-	if fc.c != nil && fc.c.Opts["strings"] == "opaque" {
+	if fc.opaque() {
 		t2, err := opaqueText(txt)
 		if err != nil {
 			fc.unsupported("%v", err)
